@@ -10,7 +10,8 @@ use std::path::PathBuf;
 use std::process::Command;
 use tls_parser::*;
 use vmodel::tape::{tape, Tape};
-use vmodel::wire::{fnv64, hex, hex_short};
+use vmodel::model::*;
+use vmodel::wire::{fnv64, hex, hex_short, Enc};
 
 pub const DEF: PropDef = PropDef {
     id: "C18",
@@ -118,11 +119,13 @@ fn gen_corpus_input(t: &mut Tape) -> Vec<u8> {
 }
 
 fn gen_corpus_input_raw(t: &mut Tape) -> Vec<u8> {
-    match t.weighted(&[2, 7]) {
+    match t.weighted(&[2, 7, 2]) {
         0 => {
             let n = t.below(48);
             t.bytes(n)
         }
+        // hellos and extension blocks in the TLS 1.3 shape (structured key_share / pre_shared_key / supported_versions contents)
+        2 => super::c01::tls13_hellos(t),
         _ => {
             let e = gen_structured(t);
             if t.chance(128) {
@@ -150,6 +153,24 @@ fn run(ctx: &Ctx) {
             let mut t = Tape::new(&data);
             inputs.push(gen_corpus_input(&mut t));
         }
+        // plus a fixed-size block of inputs built directly from the structured generators a TLS-aware change is most likely to key on
+        // (key_share lists with repeated groups, OfferedPsks, server names of every shape, TLS 1.3 extension blocks, SSLv2 hellos)
+        for i in 0..1000u64 {
+            let data = vmodel::tape::fill(seed ^ 0xC18E ^ (i << 20), 400);
+            let mut t = Tape::new(&data);
+            let mut e = Enc::new();
+            match i % 10 {
+                0..=3 => MExt::KeyShare(gen_key_share_content(&mut t, 400)).encode(&mut e),
+                4 => MExt::PreSharedKey(gen_psk_content(&mut t, 400)).encode(&mut e),
+                5 | 6 => gen_ext_known(&mut t, 0, 300).encode(&mut e),
+                7 | 8 => e.bytes(&gen_tls13_server_ext(&mut t)),
+                _ => e.bytes(&gen_sslv2_hello(&mut t).0),
+            }
+            let mut b = e.buf;
+            b.truncate(1200);
+            inputs.push(b);
+        }
+        let n = inputs.len();
         let dir = harness_dir().join("target-cfg-corpus");
         let _ = std::fs::create_dir_all(&dir);
         let path = dir.join(format!("corpus-{}.txt", std::process::id()));
